@@ -382,7 +382,7 @@ pub fn minimise(check: &dyn Check, scn: &Value, rule: &str, max_execs: usize) ->
                 continue;
             }
             execs += 1;
-            let r = check.run(&cand, &mut scratch);
+            let r = guarded_run(check, &cand, &mut scratch, 0);
             if r.violations.iter().any(|v| v.rule == rule) {
                 cur = cand;
                 continue 'outer;
@@ -454,9 +454,62 @@ pub fn report_fatal(check: &dyn Check, scn: &Value, v: &Violation) -> ! {
     }
 }
 
+/// Scenario currently executed on the main thread (serial prefix, minimisation, replay), watched by
+/// `start_main_watchdog`: the worker watchdog of the batch loop does not see these executions.
+static MAIN_SLOT: Mutex<Option<(String, Instant, u64)>> = Mutex::new(None);
+
+/// `check.run` on the main thread under the wall-clock watchdog.
+pub fn guarded_run(check: &dyn Check, scn: &Value, st: &mut Stats, idx: u64) -> RunResult {
+    *MAIN_SLOT.lock().unwrap() = Some((scn.to_string(), Instant::now(), idx));
+    let r = check.run(scn, st);
+    *MAIN_SLOT.lock().unwrap() = None;
+    r
+}
+
+fn start_main_watchdog(check: &dyn Check, opts: &Opts) {
+    let id = check.id().to_string();
+    let engine = check.engine().to_string();
+    let opts = opts.clone();
+    std::thread::spawn(move || loop {
+        std::thread::sleep(Duration::from_millis(200));
+        let stuck = {
+            let g = MAIN_SLOT.lock().unwrap();
+            match g.as_ref() {
+                Some((scn, since, idx)) if since.elapsed() > Duration::from_secs(60) => Some((scn.clone(), *idx)),
+                _ => None,
+            }
+        };
+        if let Some((scn, idx)) = stuck {
+            let rule = format!("{}.hang_wallclock", id);
+            let detail = "run did not finish within 60 s of wall clock (no seam call budget hit)";
+            if let Some(path) = &opts.replay {
+                println!("VIOLATION property={} replay={}", id, path);
+                println!("  rule={} detail={}", rule, detail);
+                std::process::exit(1);
+            }
+            if opts.dry {
+                println!("VIOLATION property={} replay=<dry> rule={} detail={}", id, rule, detail);
+                println!("  scenario: {}", truncate(&scn, 1200));
+                std::process::exit(1);
+            }
+            let scn: Value = serde_json::from_str(&scn).unwrap_or(Value::Null);
+            let dir = format!("{}/replays", opts.verif_dir);
+            let _ = std::fs::create_dir_all(&dir);
+            let body = json!({"property": id, "engine": engine, "rule": rule, "detail": detail, "features": [], "batch_seed": opts.seed as i64, "run_index": idx, "minimised": false, "shrink_executions": 0, "scenario": scn});
+            let h = fnv(scn.to_string().as_bytes()) ^ fnv(rule.as_bytes());
+            let path = format!("{}/{}-{:012x}.json", dir, id, h & 0xffff_ffff_ffff);
+            let _ = std::fs::write(&path, serde_json::to_string_pretty(&body).unwrap());
+            println!("VIOLATION property={} replay={}", id, path);
+            println!("  rule={} detail={}", rule, detail);
+            std::process::exit(1);
+        }
+    });
+}
+
 pub fn main_for(check: &dyn Check, opts: &Opts) -> i32 {
     install_panic_hook();
     let _ = GLOBAL_OPTS.set(opts.clone());
+    start_main_watchdog(check, opts);
     if let Some(path) = &opts.replay {
         return replay_file(check, path);
     }
@@ -482,7 +535,7 @@ pub fn main_for(check: &dyn Check, opts: &Opts) -> i32 {
         for idx in 0..prefix {
             let rng = Rng::new(run_seed(opts.seed, check.id(), idx));
             let scn = check.generate(&rng, opts.tier, idx);
-            let r = check.run(&scn, &mut st);
+            let r = guarded_run(check, &scn, &mut st, idx);
             done_runs.fetch_add(1, Ordering::Relaxed);
             if opts.digest {
                 digests.lock().unwrap().push((idx, r.log_hash));
@@ -626,10 +679,16 @@ pub fn main_for(check: &dyn Check, opts: &Opts) -> i32 {
                 continue;
             }
             reported_rules.insert(v.rule.clone());
+            // if the defect poisons the process, minimising may kill it: leave the unminimised
+            // scenario where the wrapper finds it
+            let guard = inflight_path(&opts.verif_dir, 9999);
+            let body = json!({"property": check.id(), "engine": check.engine(), "rule": v.rule, "detail": v.detail, "minimised": false, "run_index": f.idx, "scenario": f.scn});
+            let _ = std::fs::write(&guard, body.to_string());
             let (min_scn, steps) = minimise(check, &f.scn, &v.rule, 4000);
+            let _ = std::fs::remove_file(&guard);
             // re-run the minimised scenario to get its own detail/features
             let mut scratch = Stats::new();
-            let rr = check.run(&min_scn, &mut scratch);
+            let rr = guarded_run(check, &min_scn, &mut scratch, f.idx);
             let mv = rr
                 .violations
                 .iter()
@@ -851,7 +910,7 @@ pub fn replay_file(check: &dyn Check, path: &str) -> i32 {
     let rule = v["rule"].as_str().unwrap_or("").to_string();
     let scn = &v["scenario"];
     let mut st = Stats::new();
-    let r = check.run(scn, &mut st);
+    let r = guarded_run(check, scn, &mut st, 0);
     let mut hit = false;
     for x in &r.violations {
         if rule.is_empty() || x.rule == rule {
